@@ -125,3 +125,24 @@ func lemmaRefTwoHashRoundTrip(r *RefRecord, buf []byte, hashSize int, k int) {
 	vAssert(len(r2.Value) == hashSize && r2.Value[k] == want1, "same hash, byte by byte")
 	vAssert(len(r2.TargetValue) == hashSize && r2.TargetValue[k] == want2, "same peeled hash, byte by byte")
 }
+
+// lemmaRefSymbolicRoundTrip (C01, layer 3, symbolic refs): decoding what RefRecord.encode wrote for a record with a
+// target accepts it, consumes exactly the bytes written and returns the same update index and the same target,
+// character by character (t is a lemma parameter).
+func lemmaRefSymbolicRoundTrip(r *RefRecord, buf []byte, hashSize int, t int) {
+	vAssume(r != nil && r.UpdateIndex < 1<<62 && len(r.Value) == 0 && len(r.TargetValue) == 0 && len(r.Target) > 0 && len(r.Target) < 1<<62)
+	vAssume((hashSize == 20 || hashSize == 32) && 0 <= t && t < len(r.Target))
+	n, fits := r.encode(buf, hashSize)
+	if !fits {
+		return
+	}
+	want := r.Target[t]
+	wantLen := len(r.Target)
+	idx := r.UpdateIndex
+	var r2 RefRecord
+	m, ok := r2.decode(buf[:n], r.RefName, r.valType(), hashSize)
+	vAssert(ok, "the decoder accepts what the encoder wrote")
+	vAssert(m == n, "it consumes exactly the bytes written")
+	vAssert(r2.UpdateIndex == idx, "same update index")
+	vAssert(len(r2.Target) == wantLen && r2.Target[t] == want, "same target, character by character")
+}
